@@ -21,6 +21,8 @@
     fin,i                     OnListenForReplyFinished ran for request i
     fz,i,0|1                  at the end: the reply channel of request i is (not) closed
     cp,i                      the caller goroutine panicked
+    nh                        no OnListenForReplyFinished hook is configured in this scenario (the harness then takes the end of the
+                              listeners from the goroutine census before it inspects the channels)
     end,stuck,left            number of waits that ran into the liveness bound; listener goroutines still alive
 -/
 namespace Wm.ReqReplyMon
@@ -38,6 +40,7 @@ inductive Ev
   | cx (i : Nat) | px (i : Nat) | cy (i : Nat) | te (i : Nat) | zz (i : Nat) | fin (i : Nat)
   | fz (i : Nat) (closed : Bool)
   | cp (i : Nat)
+  | nh
   | fin_ (stuck left : Nat)
   deriving Repr, Inhabited
 
@@ -69,6 +72,7 @@ def parseEv (t : String) : Option Ev :=
   | ["fin", i] => do pure (.fin (← i.toNat?))
   | ["fz", i, c] => do pure (.fz (← i.toNat?) (← b01 c))
   | ["cp", i] => do pure (.cp (← i.toNat?))
+  | ["nh"] => some .nh
   | ["end", s, l] => do pure (.fin_ (← s.toNat?) (← l.toNat?))
   | _ => none
 
@@ -212,10 +216,12 @@ def ruleTerminates (evs : Array Ev) : Option String := Id.run do
       let isEnd : Ev → Bool := fun e => match e with
         | .cx i' | .px i' | .cy i' | .te i' => i' == i
         | _ => false
+      let hook := !evs.any (fun e => match e with | .nh => true | _ => false)
       let fins := count evs (fun e => match e with | .fin i' => i' == i | _ => false)
       if fins > 1 then return some "finished_exactly_once(ran-more-than-once)"
       if evs.any isEnd then
-        if fins == 0 then return some "listener_terminates(OnListenForReplyFinished-never-ran)"
+        -- the hook runs exactly once where one is configured; the channel is closed with or without a hook
+        if hook && fins == 0 then return some "listener_terminates(OnListenForReplyFinished-never-ran)"
         -- the final inspection of the channel counts when the context had ended before it
         for u in [0:evs.size] do
           match evs[u]! with
